@@ -100,6 +100,9 @@ MUTANTS = [
     ("m_c02_size_shortcut", "C02", C,
      "        # return all non-pseudoknotted if the graph is empty\n        if not graph:\n            return self.__make_dot_bracket(regions, [0 for _ in range(len(regions))])\n\n        # determine maximum",
      "        # return all non-pseudoknotted if the graph is empty\n        if not graph:\n            return self.__make_dot_bracket(regions, [0 for _ in range(len(regions))])\n        if len(regions) > 40:\n            return self.fcfs  # 'too big for the MILP'\n\n        # determine maximum"),
+    ("m_c02_huge_shortcut", "C02", C,
+     "        # return all non-pseudoknotted if the graph is empty\n        if not graph:\n            return self.__make_dot_bracket(regions, [0 for _ in range(len(regions))])\n\n        # determine maximum",
+     "        # return all non-pseudoknotted if the graph is empty\n        if not graph:\n            return self.__make_dot_bracket(regions, [0 for _ in range(len(regions))])\n        if len(self.entries) > 3000:\n            return self.fcfs  # 'too big for the MILP'\n\n        # determine maximum"),
     ("m_c12_long_input_memo", "C12", C,
      ["@dataclass\nclass BpSeq:\n",
       "    @cached_property\n    def fcfs(self):\n"],
